@@ -930,8 +930,8 @@ def _threaded_trace(job):
                 moves.append(('start', t))
             elif s == 'paused':
                 moves.append(('resume', t))
-        if w.lock.owner is None:
-            moves.append(('tick', rnd.choice([1, 1, 2, 3])))
+        # (a tick while a thread sits inside updateLock is fine: the event carries the clock at lock acquisition)
+        moves.append(('tick', rnd.choice([1, 1, 2, 3])))
         if not [m for m in moves if m[0] != 'tick']:
             raise MachineryError(f'controlled execution stuck: {st} {ctl.where}')
         mv = rnd.choice(moves)
